@@ -45,6 +45,23 @@ Definition start_ops (r : nat) (rq : qreq) (cache : bool) : list op :=
 (* k records are read, then Release *)
 Definition finish_ops (r : nat) (k : N) : list op := [OUse r k; ORelease r].
 
+(* how the reading loop ends: the limit is reached, the data ends (io.EOF), the wait is over -- or cur.Get fails with
+   another error after k records (a chunk read fault, the request's context cancelled between two reads). Both queriers
+   leave the loop and call Release all the same (backend.Querier: `state = q.CurProvider.Release(ctx, cur)` before
+   `return res, err`; ServerQuerier: Release, then the error answer). `early_return` = a querier that answers the
+   read fault at once, before Release (kept for the refutation in props/C15.v). *)
+Inductive read_end := REnd | RFault.
+Definition finish_ops_v (early_return : bool) (r : nat) (k : N) (e : read_end) : list op :=
+  match e with
+  | RFault => if early_return then [OUse r k] else finish_ops r k
+  | REnd => finish_ops r k
+  end.
+Definition query_ops_v (early_return early0 : bool) (r : nat) (rq : qreq) (k : N) (e : read_end) : list op :=
+  match gate early0 rq with
+  | GRun cache => start_ops r rq cache ++ finish_ops_v early_return r k e
+  | _ => []
+  end.
+
 Definition query_ops (early0 : bool) (r : nat) (rq : qreq) (k : N) : list op :=
   match gate early0 rq with
   | GRun cache => start_ops r rq cache ++ finish_ops r k
